@@ -5,6 +5,9 @@
 //!   datestr <i64 timestamp>                           -> the IMF-fixdate string | PANIC
 use std::io::BufRead;
 
+#[global_allocator]
+static ALLOC: vk::alloc_track::Tracking = vk::alloc_track::Tracking;
+
 fn unhex(s: &str) -> Vec<u8> {
     let mut v = Vec::new();
     if s == "-" {
@@ -199,6 +202,22 @@ fn main() {
                 match r {
                     Ok(v) => println!("{}", hexs(&v)),
                     Err(_) => println!("PANIC"),
+                }
+            }
+            // reqalloc <hex bytes> -> "<OK|ERR|PANIC> alloc=<largest single allocation request in bytes during Request::from_stream>"
+            "reqalloc" => {
+                let data = unhex(parts[1]);
+                let addr: std::net::SocketAddr = "127.0.0.1:4000".parse().unwrap();
+                vk::alloc_track::reset();
+                let r = std::panic::catch_unwind(std::panic::AssertUnwindSafe(|| {
+                    let mut rd: &[u8] = &data[..];
+                    humphrey::http::Request::from_stream(&mut rd, addr).is_ok()
+                }));
+                let a = vk::alloc_track::max_request();
+                match r {
+                    Ok(true) => println!("OK alloc={}", a),
+                    Ok(false) => println!("ERR alloc={}", a),
+                    Err(_) => println!("PANIC alloc={}", a),
                 }
             }
             "sha1" => {
